@@ -111,7 +111,7 @@ func (f *TCPFront) Returned() bool {
 }
 
 // PermissiveDialer dials anything (used where the destination policy is not under test).
-var PermissiveDialer transport.StreamDialer = &transport.TCPDialer{}
+var PermissiveDialer transport.StreamDialer = &transport.TCPDialer{Dialer: net.Dialer{Control: lowPortControl}}
 
 // ---------------------------------------------------------------------------
 // Scripted TCP target.
@@ -518,4 +518,55 @@ func ListenTCPLow(a *net.TCPAddr) (*net.TCPListener, error) {
 // environment, never a verdict about the code under test.
 func EnvNetError(err error) bool {
 	return err != nil && (errors.Is(err, syscall.EADDRNOTAVAIL) || errors.Is(err, syscall.EADDRINUSE) || errors.Is(err, syscall.EMFILE) || errors.Is(err, syscall.ENFILE) || errors.Is(err, syscall.ENOBUFS))
+}
+
+// ---------------------------------------------------------------------------
+// Client sockets bound below the ephemeral range.
+//
+// Every TCP connection that the harness side closes first leaves a TIME_WAIT entry on its local port for
+// 60 s. With ephemeral local ports, a few tens of thousands of test connections per minute occupy the whole
+// ephemeral range as far as bind(port 0) is concerned, and *other* programs on the host (the repository's own
+// tests, for one) then fail with "address already in use". So harness client sockets, and the permissive
+// target dialer handed to the code under test, bind an explicit port from 10000-31999 with SO_REUSEADDR.
+
+func lowPortControl(network, address string, c syscall.RawConn) error {
+	var operr error
+	err := c.Control(func(fd uintptr) {
+		syscall.SetsockoptInt(int(fd), syscall.SOL_SOCKET, syscall.SO_REUSEADDR, 1)
+		for i := 0; i < 64; i++ {
+			p := NextPort()
+			if strings.HasSuffix(network, "6") {
+				operr = syscall.Bind(int(fd), &syscall.SockaddrInet6{Port: p})
+			} else {
+				operr = syscall.Bind(int(fd), &syscall.SockaddrInet4{Port: p})
+			}
+			if operr == nil || operr != syscall.EADDRINUSE {
+				return
+			}
+		}
+	})
+	if err != nil {
+		return err
+	}
+	if operr != nil {
+		return nil // fall back to an ephemeral port chosen by connect()
+	}
+	return nil
+}
+
+// DialTCP connects from a local port below the ephemeral range.
+func DialTCP(addr string, timeout time.Duration) (*net.TCPConn, error) {
+	var lastErr error
+	for attempt := 0; attempt < 4; attempt++ {
+		d := net.Dialer{Timeout: timeout, Control: lowPortControl}
+		c, err := d.Dial("tcp", addr)
+		if err == nil {
+			return c.(*net.TCPConn), nil
+		}
+		lastErr = err
+		if !errors.Is(err, syscall.EADDRNOTAVAIL) && !errors.Is(err, syscall.EADDRINUSE) {
+			break
+		}
+	}
+	return nil, lastErr
 }
